@@ -268,7 +268,7 @@ pub fn record(rng: &mut SmallRng, n_events: usize, out: &mut dyn Write) {
         "slice_range", "split_at", "split_at_mut", "as_chunks", "as_rchunks", "try_into_array"];
     for _ in 0..n_events {
         let op = OPS[rng.gen_range(0..OPS.len())];
-        let len = rng.gen_range(0..=200usize);
+        let len = if rng.gen_range(0..10) == 0 { [254usize, 255, 256, 257, 258, 300, 513, 600][rng.gen_range(0..8)] } else { rng.gen_range(0..=200usize) };
         let nop = matches!(op, "as_chunks" | "as_rchunks" | "try_into_array");
         let pick = |rng: &mut SmallRng| -> usize {
             match rng.gen_range(0..10) {
